@@ -495,7 +495,8 @@ class TemplateASTTransformer(ASTTransformer):
         elif isinstance(node, _ast.Name):
             names.add(node.id)
         elif isinstance(node, _ast.alias):
-            names.add(node.asname or node.name)
+            # "import a.b" binds the name "a"
+            names.add(node.asname or node.name.split('.')[0])
         elif isinstance(node, (_ast.Tuple, _ast.List)):
             for elt in node.elts:
                 self._process(names, elt)
